@@ -860,3 +860,38 @@ Example C01_for_residual_premise_needed_at_top_level :
   xexec dbg_cfg (libcore dbg_cfg) Run.no_url Run.no_lint UHost (U "args") (U "index") (fun _ _ _ _ _ => true) true 100
         clob_named (None, pop_world) = None.
 Proof. vm_compute. repeat split. Qed.
+
+(* THE CRITERION ON SOURCE TREES (Proofs/C01side3.v): [user_ok s] = the names the source assigns itself (assignment targets, value
+   variables, the index variables it names: [uassigned]) are not of the reserved form `__bareScript...`; a named index variable is a
+   plain name, differs from its value variable and is not assigned in its loop's body.  Then the named tree satisfies
+   [no_temp_assign] for every start value of the label counter; and [no_shadow] when the source does not assign arrayLength / arrayGet. *)
+From BS Require Import Proofs.C01side3.
+
+Theorem C01_source_criterion_gives_no_temp_assign : forall s n, user_ok s = true ->
+  no_temp_assign (fst (uname n s)) = true /\
+  (~ In ARRLEN (uassigned s) -> ~ In ARRGET (uassigned s) -> no_shadow (fst (uname n s)) = true).
+Proof. intros s n H. split; [exact (user_ok_no_temp_assign s n H)|exact (user_ok_no_shadow s n H)]. Qed.
+Print Assumptions C01_source_criterion_gives_no_temp_assign.
+
+Theorem C01_unified_simulation_total_for_rules_source_criterion_partial : forall cfg, c_max cfg = 0%Z ->
+  forall lib url_rel lint_lines, lib_fuel_monotone lib -> lib_count_blind lib ->
+  arrayLength_contract lib -> arrayGet_contract lib ->
+  forall len_msg get_msg, arrayLength_fail_contract lib len_msg -> arrayGet_range_contract lib get_msg ->
+  forall um n s loc w o loc' w',
+  XExec cfg len_msg get_msg (EvQ cfg lib url_rel lint_lines um (Keeps (protected (fscope (loc, w)) (fst (uname n s)))))
+        false (fst (uname n s)) (loc, w) o (loc', w') ->
+  uwf false (fst (uname n s)) = true -> uguard s = true ->
+  user_ok s = true -> ~ In ARRLEN (uassigned s) -> ~ In ARRGET (uassigned s) -> LibOK (loc, w) ->
+  forall wm, weq w wm ->
+  exists out wm', scope_result o = Some out /\ weq w' wm' /\
+    Run cfg lib url_rel lint_lines um (ucompile_real n s) 0 loc wm (out, loc', wm').
+Proof. exact total_for_rules_simulation_source. Qed.
+Print Assumptions C01_unified_simulation_total_for_rules_source_criterion_partial.
+
+(* non-vacuity: the example programs (a for with a named index variable inside if / while; the for over a number; the popping body)
+   satisfy the source criterion; a loop that names the reserved index variable of its own loop as a target does not *)
+Example C01_source_criterion_nonvacuous :
+  user_ok uni_prog = true /\ user_ok num_prog = true /\ user_ok pop_prog = true /\ user_ok clob_prog = true /\
+  user_ok (NForS (U "v") [] (EVar (U "arr")) (NAssign (lbl L_Index 0) (uni_lit 7))) = false /\
+  user_ok (NForS (U "v") (U "i") (EVar (U "arr")) (NForS (U "w") (U "i") (EVar (U "arr")) NSkip)) = false.
+Proof. vm_compute. repeat split. Qed.
